@@ -6,3 +6,5 @@ package massdb_v1
 func verifCacheSize(required uint64) (uint64, bool) { return 0, false }
 
 func verifPoint(name, pass string, start, end uint64) {}
+
+func verifReadBufSize() (int, bool) { return 0, false }
